@@ -311,7 +311,9 @@ func (self *ReplicationBufferQueue) Pop(cursor *ReplicationBufferQueueCursor) er
 			self.glock.RUnlock()
 			return io.EOF
 		}
-		if currentItem.seq-cursor.seq != 1 && currentItem.seq != 0 && cursor.seq != 0xffffffffffffffff {
+		// a cursor that has not read anything yet (seq 0xffffffffffffffff, the ring was empty at
+		// the handshake) must start with the first record pushed after it: seq 0 or out of buf
+		if currentItem.seq-cursor.seq != 1 && currentItem.seq != 0 {
 			self.glock.RUnlock()
 			return errors.New("out of buf")
 		}
